@@ -45,7 +45,7 @@ def spoil(rng, r):
     """make some observer fail"""
     r = dict(r)
     how = rng.choice(["none", "none", "md_none", "md_obj", "md_lock", "md_bigint", "dangling", "node_md_none", "md_is_none",
-                      "node_md_is_none", "md_proxy"])
+                      "node_md_is_none", "md_proxy", "md_node", "md_node"])
     if how == "md_none":
         r["metadata"] = {"bad": None, "ok": 1}
     elif how == "md_obj":
@@ -54,6 +54,9 @@ def spoil(rng, r):
         r["metadata"] = {"lock": "__LOCK__"}
     elif how == "md_bigint":
         r["metadata"] = {"big": 2 ** 70}
+    elif how == "md_node":
+        # a NIR node object kept as a metadata VALUE (provenance: "fused from ...")
+        r["metadata"] = {"provenance": {"fused_from": "__NODE__"}, "n": 1} if rng.random() < 0.5 else {"fused_from": "__NODE__"}
     elif how == "md_is_none":
         r["metadata"] = "__NOMD__"            # metadata=None instead of a dictionary
     elif how == "md_proxy":
@@ -100,6 +103,23 @@ def gen(rng, tier):
             "edges": rng.choice([[("in", "aff"), ("aff", "out")], [("aff", "out"), ("in", "aff"), ("in", "out")]])}
         cases.append({"kind": "observe", "recipe": V.enc_recipe(r), "how": "negdim", "seq": [rng.choice(OBS + ["check", "check"]) for _ in range(rng.randint(1, 4))] + ["check"],
                       "stale": False})
+    # an edge between two nested graphs that each have SEVERAL ports (the type check does not support it and must raise without
+    # touching anything)
+    for _ in range(6 if tier == "quick" else 60):
+        def sub(n_in, n_out):
+            nodes = {}
+            for i in range(n_in):
+                nodes[f"in_{chr(97 + i)}"] = {"k": "Input", "args": {"input_type": np.array([rng.randint(1, 4)], dtype=np.int64)}}
+            for i in range(n_out):
+                nodes[f"out_{chr(97 + i)}"] = {"k": "Output", "args": {"output_type": np.array([rng.randint(1, 4)], dtype=np.int64)}}
+            ins = [k for k in nodes if k.startswith("in_")]
+            outs = [k for k in nodes if k.startswith("out_")]
+            return {"k": "NIRGraph", "nodes": nodes, "edges": [(rng.choice(ins), o) for o in outs] if ins else []}
+        k = rng.choice([2, 2, 3])
+        r = {"k": "NIRGraph", "nodes": {"src": sub(1, k), "dst": sub(k, 1), "tail": {"k": "Output", "args": {"output_type": np.array([2], dtype=np.int64)}}},
+             "edges": rng.choice([[("src", "dst")], [("src", "dst"), ("dst", "tail")], [("dst", "tail"), ("src", "dst")]])}
+        cases.append({"kind": "observe", "recipe": V.enc_recipe(r), "how": "multiport", "seq": [rng.choice(OBS) for _ in range(rng.randint(0, 3))] + ["check"],
+                      "stale": False})
     # graphs with tensors of several MiB, read back twice from a PATH (not a buffer): the results must not be windows onto the file
     for _ in range(2 if tier == "quick" else 12):
         cases.append({"kind": "bigread", "n": rng.choice([600, 515, 731]), "dt": rng.choice(["float64", "float32", "int64"]),
@@ -125,6 +145,9 @@ def materialise(x):
         return threading.Lock()
     if isinstance(x, str) and x == "__NOMD__":
         return None
+    if isinstance(x, str) and x == "__NODE__":
+        import nir
+        return nir.Affine(weight=np.ones((2, 3), dtype="float32"), bias=np.zeros(2, dtype="float32"))
     if isinstance(x, str) and x == "__PROXY__":
         import types
         return types.MappingProxyType({"frozen": 1})
